@@ -7,6 +7,7 @@ mode and every order of the inputs.
 import ToastyVerif.Model.Mosaic
 import ToastyVerif.Props.C08
 import ToastyVerif.Props.C15
+import ToastyVerif.Gen.Plumbing
 
 namespace C09
 open Mosaic PixelBase Pixels Gen Gen.StudyTiling
@@ -335,5 +336,9 @@ example :
     place (-10, 89, -20, 54) i2 = (40, 15, 40, 60) ∧ bounds [i2, i1] = some (-10, 89, -20, 54) ∧
     Gen.MultiTan.global_crpix i2.c1 i2.c2 (ext i2).1 (ext i2).2.2.1 (-10) (-20) = (11, 21) ∧
     Gen.MultiTan.global_crpix i1.c1 i1.c2 (ext i1).1 (ext i1).2.2.1 (-10) (-20) = (11, 21) := by decide
+
+/-- **entry_points**: the call sites through which this property's workflows reach the modelled functions have, in the source as
+it is now, the argument plumbing the model assumes (facts re-extracted on every run, `Gen/Plumbing.lean`) -/
+theorem entry_points : Gen.Plumbing.multi_tan_subimage_offsets = true ∧ Gen.Plumbing.multi_tan_worker_updates_into_basis = true := by decide
 
 end C09
